@@ -62,12 +62,12 @@ macro_rules! p64_struct {
         }
     };
 }
-//@ h=k_p64_d32 props=C02,C07 cfgs=K0 tier=q t=900 | funcs: pseudo_simd_64::distance_32 | bound: all pairs of 32-byte bodies: == sum of the real kernel over 4 chunks
+//@ h=k_p64_d32 props=C02,C07,C08 cfgs=K0 tier=q t=900 | funcs: pseudo_simd_64::distance_32 | bound: all pairs of 32-byte bodies: == sum of the real kernel over 4 chunks
 p64_struct!(k_p64_d32, distance_32, 32, 10);
-//@ h=k_p64_d64 props=C02,C07 cfgs=K0 tier=q t=1500 | funcs: pseudo_simd_64::distance_64 | bound: all pairs of 64-byte bodies: == sum of the real kernel over 8 chunks
+//@ h=k_p64_d64 props=C02,C07,C08 cfgs=K0 tier=q t=1500 | funcs: pseudo_simd_64::distance_64 | bound: all pairs of 64-byte bodies: == sum of the real kernel over 8 chunks
 p64_struct!(k_p64_d64, distance_64, 64, 10);
 
-//@ h=k_p64_d12 props=C02,C07 cfgs=K0 tier=q t=900 | funcs: pseudo_simd_64::distance_12 | bound: all pairs of 12-byte bodies: == 64-bit kernel on bytes 0..8 + 32-bit kernel on bytes 8..12
+//@ h=k_p64_d12 props=C02,C07,C08 cfgs=K0 tier=q t=900 | funcs: pseudo_simd_64::distance_12 | bound: all pairs of 12-byte bodies: == 64-bit kernel on bytes 0..8 + 32-bit kernel on bytes 8..12
 #[kani::proof]
 #[kani::unwind(10)]
 fn k_p64_d12() {
